@@ -226,12 +226,33 @@ def shrink_case(case):
     if '_regression_of' in case or case.get('name') is None:
         return case
 
+    def known_class(c, detail):
+        """Does the (smaller) failing case fall into the class of a listed finding?  Shrinking must not drift from an unexplained
+        failure into one that a finding explains (the report would then show a known case instead of the new one)."""
+        from . import findings as K
+        try:
+            obj = A.from_json(c['ast'])
+            cfg = c['cfg']
+            impl = detail.get('impl')
+            if not impl or len(set(impl)) != 1 or detail.get('verdict') in (None, R.EITHER):
+                return False
+            if c['mode'] == 'fn':
+                rseq = obj if cfg.get('ext', True) else A.flatten_ext(obj)
+                ids = K.seg_classes(rseq, c['name'], bool(cfg.get('dot')), False, False, impl[0], detail['verdict'], detail.get('pattern'))
+            else:
+                kw = dict(dot=bool(cfg.get('dot')), globstar=bool(cfg.get('globstar')), globstarlong=bool(cfg.get('globstarlong')),
+                          matchbase=bool(cfg.get('matchbase')), nodotdir=bool(cfg.get('nodotdir')), extmatchbase=bool(cfg.get('pathlib')))
+                ids = K.path_classes(obj, c['name'], kw, impl[0], detail['verdict'], detail.get('pattern') or '')
+            return bool(ids)
+        except Exception:
+            return False
+
     def still(c):
-        ok, _ = replay_case(c)
-        return not ok
+        ok, detail = replay_case(c)
+        return (not ok) and not known_class(c, detail)
     if not still(case):
         return case
-    cur = dict(case)
+    cur = dict(case, _unshrunk={'ast': case.get('ast'), 'name': case.get('name'), 'pattern': case.get('pattern')})
     improved = True
     while improved:
         improved = False
